@@ -4,6 +4,7 @@ import (
 	"fmt"
 	"sort"
 	"strings"
+	"verif/mc/univ"
 
 	"google.golang.org/protobuf/reflect/protoreflect"
 
@@ -106,7 +107,7 @@ func componentFor(doc any, md protoreflect.MessageDescriptor) (string, bool) {
 func C18(c *Ctx, r *report.Run) error {
 	r.Rule = "every spec with services of the universe (core, contexts, multi-file, same-named nested types, recursive types) x format {default, yaml, yml, json}: the emitted documents are decoded (YAML by yaml/v4 node + core-schema tags, JSON by encoding/json) and checked structurally against OAS 3.1 (required members, every $ref resolves, path template variables <-> required path parameters one-to-one, (name,in) unique, operationId unique, every message reachable from the RPCs has a component schema, one document per service); every component and parameter schema passes the Draft 2020-12 metaschema; YAML and JSON renderings are equal as JSON values; distinct = (unit, service, check, outcome)"
 	var specs []*spec.Spec
-	for _, s := range append(buildUniverse(c), univ18()...) {
+	for _, s := range append(append(buildUniverse(c), univ18()...), univ.PairSpecs(c.Thorough)...) {
 		if !hasTag(s, "valid") {
 			continue
 		}
